@@ -1434,7 +1434,10 @@ class HealSparseMap(object):
         else:
             n_valid = np.sum(self._sparse_map != self._sentinel)
 
-        self._n_valid = n_valid
+        if not self._is_view:
+            # The storage of a view changes whenever its parent map is written to,
+            # so the count cannot be cached there.
+            self._n_valid = n_valid
         return n_valid
 
     def iter_valid_pixels_by_covpix(self):
